@@ -32,8 +32,8 @@ var guardFamilies = []guardFamily{
 		helpers: []string{"getSolverInfo"}},
 	{id: "challenges", state: []string{"activeChallenges"}, lock: []string{"activeChallengesMu.Lock"}, unlock: []string{"activeChallengesMu.Unlock"}, files: []string{"solvers.go", "httphandlers.go", "handshake.go", "config.go"}},
 	{id: "dnsrecords", state: []string{"records"}, lock: []string{"recordsMu.Lock"}, unlock: []string{"recordsMu.Unlock"}, files: []string{"solvers.go"}},
-	{id: "jobs", state: []string{"names", "field:queue", "field:activeWorkers"}, lock: []string{"jm.mu.Lock"}, unlock: []string{"jm.mu.Unlock"}, files: []string{"async.go"}},
-	{id: "ring", state: []string{"field:ring", "field:cursor"}, lock: []string{"r.mu.Lock"}, unlock: []string{"r.mu.Unlock"}, files: []string{"ratelimiter.go"},
+	{id: "jobs", state: []string{"names", "field:queue", "field:activeWorkers"}, lock: []string{".mu.Lock"}, unlock: []string{".mu.Unlock"}, files: []string{"async.go"}},
+	{id: "ring", state: []string{"field:ring", "field:cursor"}, lock: []string{".mu.Lock"}, unlock: []string{".mu.Unlock"}, files: []string{"ratelimiter.go"},
 		helpers: []string{"advance"}},
 	{id: "locks", state: []string{"locks"}, lock: []string{"locksMu.Lock"}, unlock: []string{"locksMu.Unlock"}, files: []string{"storage.go"}},
 	{id: "ratelimiters", state: []string{"rateLimiters"}, lock: []string{"rateLimitersMu.Lock", "rateLimitersMu.RLock"}, unlock: []string{"rateLimitersMu.Unlock", "rateLimitersMu.RUnlock"}, files: []string{"acmeclient.go"}},
